@@ -187,6 +187,7 @@ def run(ctx):
     bases = answers.gen_cases(ctx, 140 if quick else 1500, (2, 5), (1, 5), [False, False, True], ties=0.25, q_per=6, consts=0.08, deep=0.35, big=0.1)
     for b in bases:
         layers = b["_info"]["layers"]
+        deep_pairs = b.get("_kind") == "deep_pairs" and len(b["queries"]) >= 4
         b = {k: v for k, v in b.items() if not k.startswith("_")}
         cfgs = [c for c in CFGS if not (b["weakly"] and c[0] == "c-inference")]
         system, pm = rng.choice(cfgs)
@@ -223,9 +224,26 @@ def run(ctx):
             multi = par_budget > 0 and rng.random() < 0.3
             if multi:
                 par_budget -= 1
+                # queries a parallel path might settle by itself (unsatisfiable antecedent / verification / falsification)
+                x = ("a", rng.randrange(b["n"]))
+                ya = rng.choice(pool)[1]
+                for j_, (sb, sa) in enumerate(rng.sample([(("!", x), x), (("F",), ya), (x, ("&", ya, ("!", ya))), (("|", x, ("!", x)), ya), (x, ("&", x, ya))], 2)):
+                    qs.append([60 + j_, sb, sa])     # keys distinct from each other and from the sampled ones (< 30)
             # a generous time budget that never fires must not change anything (sequential or parallel)
             budget = rng.choice([None, None, {"inference_timeout": 600}, {"total_timeout": 900}, {"total_timeout": 900, "inference_timeout": 300}])
             history.append({"queries": qs, "multi": multi, "budget": budget})
+        if deep_pairs:
+            # the two members of a pair of deep queries (they differ only in the innermost literals) on the same manager: once in one
+            # batch, once in successive calls, in either order
+            p0 = [list(q) for q in b["queries"][0:2]]
+            p1 = [list(q) for q in b["queries"][2:4]]
+            if rng.random() < 0.5:
+                p0.reverse()
+            if rng.random() < 0.5:
+                p1.reverse()
+            history.insert(rng.randrange(len(history) + 1), {"queries": [[40, p0[0][1], p0[0][2]], [41, p0[1][1], p0[1][2]]], "multi": False, "budget": None})
+            history.append({"queries": [[42, p1[0][1], p1[0][2]]], "multi": False, "budget": None})
+            history.append({"queries": [[43, p1[1][1], p1[1][2]]], "multi": False, "budget": None})
         # bases with >= 3 layers (deep recursions, more solver state to leak) are asked with every operator
         for system, pm in (cfgs if (layers or 0) >= 3 else [(system, pm)]):
             cases.append({"n": b["n"], "weakly": b["weakly"], "base": b["base"], "layers": layers, "system": system, "pmaxsat": pm,
